@@ -5,3 +5,9 @@ import Fir.Props.C10
 #print axioms Fir.C10.quantOK_of_sum_close
 #print axioms Fir.C10.uniform_two_pass
 #print axioms Fir.C10.quantOK_fails_at_13678_taps
+#print axioms Fir.C10.quantOK_of_rounded_weights
+#print axioms Fir.C10.uniform_exact_u8_of_rounded_weights
+#print axioms Fir.C10.horizPass_uniform_u8
+#print axioms Fir.C10.vertPass_uniform_u8
+#print axioms Fir.C10.horizPass_uniform_u16
+#print axioms Fir.C10.vertPass_uniform_u16
